@@ -50,6 +50,7 @@ EXPECT = [
     ("unloads and loads a NonConcurrentBuffer may be left unscheduled", "C05,C06,C09"),
     ("OrderedTaskGroup orders the scheduled members", "C06,C03"),
     ("CumulativeWorker listed in a SelectWorkers keeps its capacity", "C02,C11"),
+    ("TaskPrecedence between a task group and an optional task", "C18"),
 ]
 
 
